@@ -227,13 +227,9 @@ Section Dec.
                         if spec_single_signature s then
                           match parse_sig s with
                           | Some [ct] =>
-                              let p0 := pos + 1 + len + 1 in
-                              match skip_pad p0 (spec_align ct) d3 with
-                              | Some (p1, d4) =>
-                                  match dec d' ct (depth + 1) p1 d4 with
-                                  | Some (v, p2, d5) => Some (VVar ct v, p2, d5)
-                                  | None => None
-                                  end
+                              (* the contained value's own decoder skips (and checks) its alignment padding *)
+                              match dec d' ct (depth + 1) (pos + 1 + len + 1) d3 with
+                              | Some (v, p2, d5) => Some (VVar ct v, p2, d5)
                               | None => None
                               end
                           | _ => None
